@@ -22,7 +22,9 @@ oracle:      the property stated on the real code: orthonormality, det = +1, R(-
              the array, on every registered ellipsoid; broadcasting: (k,), (1,k), (n,k), (m,k) reference positions /
              states / observers against (k,), (1,k), (n,k), (m,k) values / targets and scalar / (n,) angles are accepted
              with the model's rows or refused (ValueError) on both sides; a single reference position is the frame of
-             every row; vector = target - observer for an observer given in TRS
+             every row; vector = target - observer for an observer given in TRS; observers on user-built ellipsoids (two
+             definitions with equal names and different axes, equal axes and different names, the same coordinates on both
+             in both orders): the triad, the up component and the elevation belong to the parameters of *that* ellipsoid
 """
 from __future__ import annotations
 
@@ -113,7 +115,9 @@ def run(ctx: Ctx):
                 "negative int, np.int_, slice, stepped/reversed slice, list, int array or boolean mask, array-level properties read "
                 "before or after the rows; broadcasting: (k,), (1,k), (n,k), (m,k) reference positions / observers / states against "
                 "(k,), (1,k), (n,k), (m,k) values / targets and scalar or (n,) latitudes against scalar or (n,) longitudes (accepted "
-                "or refused on both sides); vector/distance/direction of observers given in trs and in llh. A case is non-trivial when the "
+                "or refused on both sides); vector/distance/direction of observers given in trs and in llh; observers on ellipsoids the user "
+                "defines (historic ellipsoids, a sphere, slightly corrected parameters) twice under one name / under two names, the same "
+                "coordinates converted on both in either order and back on the first. A case is non-trivial when the "
                 "angle / vector is non-zero; distinct by canonical input values.")
     ctx.trusted += ["floating-point error is measured on the sampled inputs (<= 2 ulp per matrix entry against the Float "
                     "model, exact equality against the Rat model of the algebraic part), not proved",
@@ -143,6 +147,8 @@ def corpus_case(ctx, c):
     try:
         if c.get("kind") == "acr":
             one_acr(ctx, case, c["shape"], [tuple(s) for s in c["states"]], c["delta"])
+        elif c.get("kind") == "user-ellipsoids":
+            one_user_ellipsoids(ctx, case)
         elif c.get("kind") == "rows" and c["ellipsoid"] in ellipsoid._ELLIPSOIDS:
             trs_rows = [np.asarray(T.llh2trs(np.array(r, dtype=float), ellipsoid.get(c["ellipsoid"])), dtype=float).reshape(-1, 3)[0].tolist() for r in c["ref_llh"]]
             one_indexed(ctx, {**case, "ref_trs": trs_rows})
@@ -1140,7 +1146,7 @@ def own_trs2llh(a, f_inv, x, y, z):
 def check_user_ellipsoids(ctx: Ctx):
     Position, PositionDelta, PosVel, PosVelDelta, ellipsoid, rotation, T = _imp()
     rng = ctx.rng
-    n = ctx.budget(120, 3000)
+    n = ctx.budget(120, 2000)
     for k in range(n):
         mode = rng.choice(["same name, other axes", "same name, other axes", "other name, same axes", "other name, other axes"])
         pa = rng.choice(HISTORIC)
@@ -1381,6 +1387,20 @@ def one_acr(ctx, case, shape, states, deltas):
             comb = acr[i][sl][0] * ahat + acr[i][sl][1] * chat + acr[i][sl][2] * rhat
             if float(np.max(np.abs(comb - back[i][sl]))) > (REL + ttol) * nd + 1e-300:
                 gviolate(ctx, "trs=combination-of-acr-triad", f"acr -> trs gives {back[i][sl].tolist()} but a*along + c*cross + r*radial of the row's state is {comb.tolist()}", {**case, "i": i, "part": part})
+    # the result does not depend on the system the vector is handed over in: the ENU components of the same vectors give the
+    # same along/cross/radial components, and the ACR components the same ENU components (whatever path the conversion takes)
+    enu = rows_of(np.asarray(delta.enu, dtype=float))
+    acr_of_enu = rows_of(np.asarray(PosVelDelta(as_shape(enu.tolist(), shape), "enu", ref_pos=ref).acr, dtype=float))
+    enu_of_acr = rows_of(np.asarray(PosVelDelta(as_shape(acr.tolist(), shape), "acr", ref_pos=ref).enu, dtype=float))
+    for i, (r, v) in enumerate(states):
+        sin_i = max(float(np.linalg.norm(np.cross(np.array(r) / np.linalg.norm(r), np.array(v) / np.linalg.norm(v)))), 1e-12)
+        for q in (0, 3):
+            nd = float(np.linalg.norm(deltas[i][q:q + 3]))
+            ptol = (REL + 64 * 2.3e-16 / sin_i) * nd + 1e-300
+            if acr_of_enu.shape != acr.shape or float(np.max(np.abs(acr_of_enu[i][q:q + 3] - acr[i][q:q + 3]))) > ptol:
+                gviolate(ctx, "path-independence:enu->acr", f"the ENU components of a vector give along/cross/radial {acr_of_enu[i][q:q + 3].tolist() if acr_of_enu.shape == acr.shape else acr_of_enu.shape}, its TRS components {acr[i][q:q + 3].tolist()}", {**case, "i": i, "part": q // 3})
+            if enu_of_acr.shape != enu.shape or float(np.max(np.abs(enu_of_acr[i][q:q + 3] - enu[i][q:q + 3]))) > ptol:
+                gviolate(ctx, "path-independence:acr->enu", f"the along/cross/radial components of a vector give ENU {enu_of_acr[i][q:q + 3].tolist() if enu_of_acr.shape == enu.shape else enu_of_acr.shape}, its TRS components {enu[i][q:q + 3].tolist()}", {**case, "i": i, "part": q // 3})
     # rows are independent: one state as (6,) and (1,6) on its own gives the numbers of its row of the array (first and last row)
     for j in sorted({0, m - 1}):
         r0, v0 = np.array(states[j][0]), np.array(states[j][1])
